@@ -67,3 +67,7 @@ more('expr.c', 'generic', 'error', 'multiple default expressions in generic asso
      T('expr', '_Generic(1L, int: 1, long: 2, default: 3, char *: 4, default: 5)'), T('expr', '_Generic(h_v, int: 1, default: 2, default: 3)'), T('expr', '_Generic(h_v, default: 2, int: 1, default: 3)'))
 more('expr.c', 'inttype', 'error', "invalid integer constant suffix '%s'",
      T('expr', '10uLl', "'uLl'"), T('expr', '7UlL', "'ulL'"), T('expr', '1LlU', "'LlU'"))
+
+# round 20: too few arguments for the named parameters of a variadic function
+more('expr.c', 'postfixexpr', 'error', 'not enough arguments for function call',
+     T('bdecl', 'total_(1);', pre='int total_(int, long, ...);'), T('bdecl', 'total_();', pre='int total_(int, ...);'))
